@@ -43,6 +43,7 @@ class GeminiClientProtocol(asyncio.Protocol):
         url: str,
         response_future: asyncio.Future,
         send_on_connect: bool = True,
+        decode_text: bool = True,
     ):
         """Initialize the client protocol.
 
@@ -52,10 +53,13 @@ class GeminiClientProtocol(asyncio.Protocol):
             send_on_connect: Send the request as soon as the connection is
                 established. If False, nothing is written until
                 send_request() is called (used to verify the peer first).
+            decode_text: Decode text/* bodies to str. If False, every body is
+                returned as the raw bytes received (used by the proxy).
         """
         self.url = url
         self.response_future = response_future
         self.send_on_connect = send_on_connect
+        self.decode_text = decode_text
         self.request_sent = False
         self.transport: asyncio.Transport | None = None
         self.buffer = b""
@@ -200,7 +204,7 @@ class GeminiClientProtocol(asyncio.Protocol):
             mime_type = (self.meta or "").split(";")[0].strip().lower()
             is_text = mime_type.startswith("text/") or mime_type == ""
 
-            if is_text:
+            if is_text and self.decode_text:
                 # Get charset from meta if specified, default to utf-8
                 charset = "utf-8"
                 # Parse charset from meta (e.g., "text/gemini; charset=iso-8859-1")
